@@ -350,7 +350,8 @@ def bounded_writers(ctx, b):
             fit = rng.choice([True, False])
         mk = lambda v: Size(v, unit)
         L = Layout(origin=Point(mk(ox), mk(oy)), extent=Stretch(mk(ew), mk(eh)) if has_ext else None,
-                   padding=Padding(mk(1), mk(2), mk(3), mk(4)) if (rng.random() < 0.4 and not (i < len(fixed) and ox == 0)) else None)
+                   padding=rng.choice([Padding(mk(1), mk(2), mk(3), mk(4)), Padding(mk(1), mk(2), mk(12), mk(1)), Padding(mk(0), mk(0), mk(9), mk(0))])
+                   if (rng.random() < 0.4 and not (i < len(fixed) and ox == 0)) else None)
         node = CaptionNode.create_text("x", layout_info=L if level == "node" else None)
         cap = Caption(0, 10 ** 6, [node], layout_info=L if level == "caption" else None)
         cs = CaptionSet({"en": CaptionList([cap], layout_info=L if level == "language" else None)})
@@ -392,6 +393,13 @@ def bounded_writers(ctx, b):
                                 return False, {"fit_to_screen": "region exceeds the safe area", "edges": (ex + rw, ey + rh)}
                             if not has_ext and (abs(ex + rw - 90) > 0.011 or abs(ey + rh - 95) > 0.011):
                                 return False, {"fit_to_screen": "missing extent does not reach the edges", "edges": (ex + rw, ey + rh)}
+                if Wr is WebVTTWriter and fit and L.padding is not None:
+                    # with paddings the cue box (position = left edge + left padding, size = width - both paddings) still ends
+                    # at or before the 90% edge
+                    ex = expected_pct(ox, unit, W, H, True)
+                    mp, ms = re.search(r"position:([\d.]+)%", out), re.search(r"size:([\d.]+)%", out)
+                    if ex is not None and 0 <= ex <= 89 and mp and ms and float(mp.group(1)) + float(ms.group(1)) > 90.6:
+                        return False, {"fit_to_screen": "padded cue box crosses the 90% edge", "position_plus_size": float(mp.group(1)) + float(ms.group(1)), "output": out[:300]}
                 if Wr is WebVTTWriter and fit and L.padding is None:
                     # WebVTT: the cue box never crosses the 90% edge, and a missing extent reaches it - also from x = 0
                     ex = expected_pct(ox, unit, W, H, True)
@@ -412,6 +420,19 @@ def bounded_writers(ctx, b):
                             return WebVTTWriter(relativize=True, fit_to_screen=fit, **kw).write
                         except Exception:
                             raise
+                    # ... nor what THIS writer object wrote before it was given another video size
+                    if Wr is DFXPWriter:
+                        w.video_width, w.video_height = 2 * W, 2 * H
+                        try:
+                            again_same = w.write(copy.deepcopy(pristine))
+                        except RelativizationError:
+                            again_same = "refused"
+                        try:
+                            fresh_other = DFXPWriter(relativize=True, video_width=2 * W, video_height=2 * H, fit_to_screen=fit).write(copy.deepcopy(pristine))
+                        except RelativizationError:
+                            fresh_other = "refused"
+                        if again_same != fresh_other:
+                            return False, {"writer_reconfigured_to_another_video_size": again_same[:400], "fresh_writer_with_that_size": fresh_other[:400]}
                     for kw in ({"video_width": 2 * W, "video_height": 2 * H}, {}):
                         res = []
                         for target in (cs, copy.deepcopy(pristine)):
